@@ -5,16 +5,6 @@ From Coq Require Import ZArith QArith List Bool.
 From Centro Require Import Base.Sx Base.ThresholdNum Model.ThresholdLang Gen.ThresholdC11.
 Import ListNotations.
 
-Definition as_modifier (x : sx) : modifier :=
-  match as_Z x with 0%Z => MGlobal | 1%Z => MAdaptive | _ => MPerObject end.
-Definition as_lab0 (x : sx) : option (list bool) :=
-  match as_list x with [] => None | y :: _ => Some (as_bools y) end.
-Definition of_val (v : val) : sx :=
-  match v with
-  | VNone => L []
-  | VNum q => L [I 0; of_Q q]
-  | VArr a => L [I 1; of_Qs a]
-  end.
 (* arg: (modifier cf raw_global lo? hi? raw_local lab0?) -> () when the call raises, else (local global) *)
 Definition entry_run (x : sx) : sx :=
   let inp := mkIn (as_modifier (arg 0 x)) (as_Q (arg 1 x)) (as_Q (arg 2 x)) (as_Qs (arg 5 x)) (as_lab0 (arg 6 x)) in
